@@ -110,6 +110,21 @@ func jobsFor(prop, tier string) []*Job {
 		add(&Job{Name: fmt.Sprintf("O2-fraction/B=%d,dur=10s", B), Pkg: "cbreaker", Harness: "VerifC12Fraction", Params: p("B", B, "dur", 10000000000), IncKind: "cvc5", SkipInc: true, TimeoutS: 300,
 			Solvers: []string{"cvc5", "z3"}, Inductive: true,
 			Bounds:  fmt.Sprintf("recovery duration 10 s, counters symbolic in [0,2^%d), two symbolic instants el0<=el1<=duration; one decision step from any state satisfying the float-level invariant", B)})
+	case "C19":
+		lens := [][3]int{{1, 1, 1}, {3, 2, 2}, {2, 1, 3}}
+		if thorough {
+			lens = append(lens, [3]int{4, 3, 3}, [3]int{5, 5, 1})
+		}
+		for form := 0; form < 3; form++ {
+			for _, l := range lens {
+				add(&Job{Name: fmt.Sprintf("O1-clientip/form=%d,lens=%d.%d.%d", form, l[0], l[1], l[2]), Pkg: "utils", Harness: "VerifC19ClientIP",
+					Params: p("form", form, "lip", l[0], "lport", l[1], "lzone", l[2]), IncKind: "cvc5", TimeoutS: 60, IncMs: 1500,
+					Solvers: []string{"cvc5", "z3"},
+					Bounds:  fmt.Sprintf("RemoteAddr = ip4:port / [ip6]:port / [ip6%%zone]:port with symbolic contents; lengths ip=%d port=%d zone=%d (any bytes except the separators of the form)", l[0], l[1], l[2])})
+			}
+		}
+		add(&Job{Name: "O2-host-header-dispatch", Pkg: "utils", Harness: "VerifC19Others", IncKind: "cvc5", TimeoutS: 60, Solvers: []string{"cvc5", "z3"},
+			Bounds: "symbolic Host and header value (<= 8 bytes), symbolic variable name (<= 20 bytes)"})
 	}
 	return js
 }
